@@ -44,7 +44,7 @@ SLICES_QUICK = {
     # EMPTY values (`x =`, `x = ${undefined}`, `description =`) at file level in the root / an included / a subninja file,
     # at build level and at rule level, shadowing non-empty values of the enclosing scopes ("bound to nothing" is bound)
     "empty": fam(MaxStmts=5, MaxBinds=2, MaxRules=1, MaxBuilds=1, MaxNest=1, MaxMisc=0, FBSel="{1,8}", RCSel="{2}",
-                 RDSel="{1}", RESel="{1,8}", RNSel="{1}", BBSel="{1,9}", OutSel="{3}", InSel="{2}", BRSel="{1}"),
+                 RDSel="{1}", RESel="{8}", RNSel="{1}", BBSel="{1,9}", OutSel="{1,3}", InSel="{2}", BRSel="{1}"),
     "empty2": fam(MaxStmts=4, MaxBinds=2, MaxRules=1, MaxBuilds=1, MaxNest=0, MaxMisc=0, FBSel="{5,10,11}", RCSel="{2,3}",
                   RDSel="{1,2}", RESel="{1,8}", RNSel="{1}", BBSel="{1,10}", OutSel="{1}", InSel="{2}", BRSel="{1}"),
     # escapes and continuations in every position, depfile/deps/rspfile/generator/restat/pool, default, pool
